@@ -204,9 +204,10 @@ type valX struct {
 	assignHook func(lhs ast.Expr, sym string, st *vstate) (ok, handled bool)
 
 	// extension points used by flow.go (all nil / false for Gen/ValueTable.lean); stmtHook above is shared
-	callHook   func(n *ast.CallExpr, st *vstate, pend *[]*vtree, want int) (rs []string, ok bool, handled bool) // sees every call that is not inlined first
-	wrapCalls  bool                                                                                             // fmt.Errorf arguments may be calls (they become nodes of the tree)
-	funcValues bool                                                                                             // a function of the package used as a value is the symbol func:<name>
+	callHook     func(n *ast.CallExpr, st *vstate, pend *[]*vtree, want int) (rs []string, ok bool, handled bool) // sees every call that is not inlined first
+	wrapCalls    bool                                                                                             // fmt.Errorf arguments may be calls (they become nodes of the tree)
+	funcValues   bool                                                                                             // a function of the package used as a value is the symbol func:<name>
+	loopBranches bool                                                                                             // break / continue of a loop nested in a switch case belong to that loop (flow.go runs loops)
 }
 
 func vfuncKey(fd *ast.FuncDecl) string {
@@ -775,6 +776,48 @@ func hasBranchStmt(ss []ast.Stmt) bool {
 	return found
 }
 
+// caseHasBranch: a case body holds a break / continue / goto / fallthrough the switch cannot be run with. When the
+// loops are run (loopBranches), the unlabelled break / continue inside a for / range nested in the body are that loop's.
+func (x *valX) caseHasBranch(ss []ast.Stmt) bool {
+	if !x.loopBranches {
+		return hasBranchStmt(ss)
+	}
+	found := false
+	var visit func(n ast.Node, inLoop bool)
+	visit = func(n ast.Node, inLoop bool) {
+		ast.Inspect(n, func(m ast.Node) bool {
+			if found || m == nil {
+				return false
+			}
+			switch b := m.(type) {
+			case *ast.BranchStmt:
+				if !inLoop || b.Label != nil || (b.Tok != token.BREAK && b.Tok != token.CONTINUE) {
+					found = true
+				}
+			case *ast.ForStmt:
+				if m != n {
+					visit(b.Body, true)
+					return false
+				}
+			case *ast.RangeStmt:
+				if m != n {
+					visit(b.Body, true)
+					return false
+				}
+			case *ast.SwitchStmt, *ast.TypeSwitchStmt, *ast.SelectStmt:
+				if m != n && inLoop {
+					// a break inside a nested switch is that switch's: leave it to the nested run
+					visit(m, false)
+					return false
+				}
+			}
+			return true
+		})
+	}
+	visit(&ast.BlockStmt{List: ss}, false)
+	return found
+}
+
 func (x *valX) assign(lhs ast.Expr, sym string, st *vstate) bool {
 	if x.assignHook != nil {
 		if ok, handled := x.assignHook(lhs, sym, st); handled {
@@ -1136,7 +1179,7 @@ func (x *valX) exec(stmts []ast.Stmt, st *vstate, fr *vframe) *vtree {
 		var dflt *ast.CaseClause
 		for _, c := range n.Body.List {
 			cc := c.(*ast.CaseClause)
-			if hasBranchStmt(cc.Body) {
+			if x.caseHasBranch(cc.Body) {
 				return x.unk(s) // break, fallthrough, goto, continue
 			}
 			if cc.List == nil {
@@ -1210,7 +1253,7 @@ func (x *valX) exec(stmts []ast.Stmt, st *vstate, fr *vframe) *vtree {
 		var dflt *ast.CaseClause
 		for _, c := range n.Body.List {
 			cc := c.(*ast.CaseClause)
-			if hasBranchStmt(cc.Body) {
+			if x.caseHasBranch(cc.Body) {
 				return x.unk(s)
 			}
 			if cc.List == nil {
